@@ -9,6 +9,9 @@ import (
 	"fmt"
 	"math/big"
 	"sort"
+	"strconv"
+	"strings"
+	"time"
 
 	"github.com/pokt-network/pocket-core/codec"
 	sdk "github.com/pokt-network/pocket-core/types"
@@ -97,6 +100,26 @@ func (s *Sim) checkBegin(b *blockObs, before, after *Dump) {
 			s.res.Probe("jailed_in_begin_block")
 			if pv.Status == sdk.Unstaking {
 				s.res.Probe("jail_while_unstaking")
+			}
+			// the simulator keeps its own record of when the jail period ends (C25: a later unjail is
+			// judged against this record, not against whatever the store says by then)
+			psi, had := vb.Signing[addr]
+			nsi := va.Signing[addr]
+			downtime := had && psi.MissedBlocksCounter > 0 && nsi.MissedBlocksCounter == 0 && !nv.StakedTokens.Equal(pv.StakedTokens)
+			if downtime {
+				if raw, ok := vb.Params["pos/DowntimeJailDuration"]; ok {
+					if ns, err := strconv.ParseInt(strings.Trim(raw, `"`), 10, 64); err == nil {
+						end := b.spec.Time.Add(time.Duration(ns))
+						if s.jailEnd == nil {
+							s.jailEnd = map[string]time.Time{}
+						}
+						s.jailEnd[addr] = end
+						if !nsi.JailedUntil.Equal(end) {
+							s.violate("C25", "jail-period-not-set", "downtime", fmt.Sprintf("height %d: node %s jailed for downtime at block time %s with a jail duration of %s is recorded as jailed until %s", h, addr, b.spec.Time, time.Duration(ns), nsi.JailedUntil))
+						}
+						s.res.Probe("downtime_jail_period_recorded")
+					}
+				}
 			}
 		}
 		if pv.Jailed && !nv.Jailed {
@@ -415,6 +438,14 @@ func (s *Sim) checkNodeTx(t *txCtx, changed bool) {
 		}
 		s.res.Case(fmt.Sprintf("node-effect/%s/existing=%v/signer-is-operator=%v", rec.Step.Kind, existed, rec.SignAddr == target))
 	}
+	if rec.Step.Kind == "node_stake" && existed && pv.Jailed {
+		if _, jailedForDowntime := s.jailEnd[target]; jailedForDowntime {
+			if s.jailEdited == nil {
+				s.jailEdited = map[string]bool{}
+			}
+			s.jailEdited[target] = true
+		}
+	}
 	switch rec.Step.Kind {
 	case "node_stake":
 		if existed && pv.Status == sdk.Staked {
@@ -495,6 +526,18 @@ func (s *Sim) checkNodeTx(t *txCtx, changed bool) {
 			minStake, _ := t.vb.ParamInt("pos/StakeMinimum")
 			if pv.StakedTokens.LT(sdk.NewInt(minStake)) {
 				s.violate("C25", "unjailed-below-minimum-stake", "unjail", fmt.Sprintf("height %d: node %s unjailed with stake %s, minimum %d", h, target, pv.StakedTokens, minStake))
+			}
+			if end, ok := s.jailEnd[target]; ok {
+				if t.blockTime.Before(end) {
+					subj := "no-edit-since-jailing"
+					if s.jailEdited[target] {
+						subj = "after-edit-stake"
+					}
+					s.violate("C25", "unjailed-before-jail-end", subj, fmt.Sprintf("height %d: node %s unjailed at block time %s; it was jailed for downtime until %s", h, target, t.blockTime, end))
+				}
+				delete(s.jailEnd, target)
+				delete(s.jailEdited, target)
+				s.res.Probe("unjail_judged_against_own_record")
 			}
 			if si, ok := t.vb.Signing[target]; ok && t.blockTime.Before(si.JailedUntil) {
 				s.violate("C25", "unjailed-before-jail-end", "unjail", fmt.Sprintf("height %d: node %s unjailed at block time %s, jailed until %s", h, target, t.blockTime, si.JailedUntil))
